@@ -5,6 +5,26 @@ VERIF = os.path.dirname(os.path.dirname(os.path.abspath(__file__)))
 BASELINE = "cd /repo && /venv/bin/python -m pytest -ra -q -p no:cacheprovider --timeout=900 --continue-on-collection-errors"
 
 CHECKS = {
+ 'C01': dict(level='exploration',
+   text='from_kd_buf is a pure function of 64 bytes; the check enumerates completely the Hamming ball of radius 2 around base records, every value of every byte, every 16-bit value of each debug-id half, and all decode orders of <=3 over a pool of records sharing sub-fields, judging each against an independent slicing decoder and the algebraic clauses. 2^512 is not enumerable, so this is bounded exhaustive exploration of stated shapes.',
+   note='Trusted: mc/ref.py:ref_decode. Values outside the enumerated shapes are not covered.',
+   technique='bounded exhaustive input enumeration (Hamming balls, byte sweeps, decode-order histories) against a reference decoder'),
+ 'C02': dict(level='model_checking',
+   text='Version-2 dumps from an independent writer: full product of thread maps x padding lengths x record sequences x both entry points, plus all histories of <=3 parses through the same table objects in 4 reuse modes; every parse judged against the independent decode and the file map. States are table contents, transitions are parses.',
+   note='Trusted: mc/build.py v2 writer (cross-checked against the suite\'s hand-built file). Known finding K1 (greedy pad) is reported as KNOWN-FINDING.',
+   technique='explicit enumeration of dump shapes and parse histories on the real parser with a reference model'),
+ 'C03': dict(level='model_checking',
+   text='Version-3 dumps from an independent writer: full product of header alignment residues x sentinel fillers x chunk compositions x size conventions, and all sequences of <=3 (quick) / <=4 (thorough) metadata/log blocks x string-index positions x thread maps x MORE_EVENTS gaps; every dump parsed by the real KdBufParser and compared with the reference expectations.',
+   note='Trusted: the v3 writer is a frozen transcription of the layout (no sample v3 file in the repository).',
+   technique='explicit enumeration of container layouts and block sequences on the real parser with a reference model'),
+ 'C06': dict(level='fault_enumeration',
+   text='Every truncation offset of 9 base dumps x 5 consumers through a counting reader with a read budget and watchdog, plus every output-count limit: termination, prefix, no fabrication, no retroactive change.',
+   note='Trusted: base dumps and their record ranges from mc/build.py. Progress is not demanded, only prefix-ness.',
+   technique='exhaustive crash-point (truncation offset) enumeration on the real parsing pipeline'),
+ 'C12': dict(level='model_checking',
+   text='All record/log streams up to a small length x the complete product of filter configurations; each listing compared with a reference comprehension over the independent decode.',
+   note='Trusted: reference filter semantics transcribed from the statement; containers from mc/build.py.',
+   technique='exhaustive configuration x history enumeration on the real facade with a reference filter'),
  'C04': dict(level='model_checking',
    text='Every event history up to depth 4 (quick: 2.56M maximal histories over 40 symbols; thorough: depth 5, 102M, plus depth 6 on a 16-symbol core and fragment/3-thread alphabets) is fed to a fresh real TracesParser with a reference model of the statement in lockstep; every step of every history is judged. Pairing is finite-state per (thread, code), so bounded-depth exhaustive history enumeration is the natural level.',
    note='Trusted: the reference model in checks/c04.py; Kevent objects are constructed directly (container layer is C01-C03). Depth bound as stated; codes limited to the alphabet.',
